@@ -1650,6 +1650,60 @@ variant("starttls-lock-only-around-swap",
 	c.locker.Unlock()
 	c.init()
 """))
+variant("datareader-max-local",
+  ("data.go", """	if c.server.MaxMessageBytes > 0 {
+		dr.limited = true
+		dr.n = int64(c.server.MaxMessageBytes)
+	}""", """	if max := c.server.MaxMessageBytes; max >= 1 {
+		dr.limited = true
+		dr.n = int64(max)
+	}"""))
+variant("bdat-count-before-error-check-free",
+  ("conn.go", """	c.bytesReceived += int64(size)
+
+	if last {
+		c.lineLimitReader.LineLimit = c.server.MaxLineLength
+""", """	if last {
+		c.bytesReceived += int64(size)
+		c.lineLimitReader.LineLimit = c.server.MaxLineLength
+"""), ("conn.go", """		c.reset()
+	} else {
+		c.writeResponse(250, EnhancedCode{2, 0, 0}, "Continue")""", """		c.reset()
+	} else {
+		c.bytesReceived += int64(size)
+		c.writeResponse(250, EnhancedCode{2, 0, 0}, "Continue")"""))
+variant("server-close-done-then-lock-early",
+  ("server.go", """func (s *Server) Close() error {
+	select {
+	case <-s.done:
+		return ErrServerClosed
+	default:
+		close(s.done)
+	}
+
+	var err error
+	s.locker.Lock()
+""", """func (s *Server) Close() error {
+	select {
+	case <-s.done:
+		return ErrServerClosed
+	default:
+		close(s.done)
+	}
+
+	s.locker.Lock()
+	var err error
+"""))
+variant("data-drain-err-named",
+  ("conn.go", """	_, drainErr := io.Copy(ioutil.Discard, r) // Make sure all the data has been consumed
+	c.writeResponse(code, enhancedCode, msg)
+	if drainErr != nil {""", """	_, incomplete := io.Copy(ioutil.Discard, r) // Make sure all the data has been consumed
+	c.writeResponse(code, enhancedCode, msg)
+	if incomplete != nil {"""))
+variant("readline-trim-one-call",
+  ("conn.go", """	line = strings.TrimSuffix(line, "\\n")
+	line = strings.TrimSuffix(line, "\\r")
+	return line, nil""", """	return strings.TrimSuffix(strings.TrimSuffix(line, "\\n"), "\\r"), nil"""))
 if sys.argv[1:] == ['--export']:
     out = [{"id": "benign-" + n, "edits": [{"file": f, "old": o, "new": w} for f, o, w in V[n]]} for n in V]
     json.dump(out, open('/verif/liveness/benign.json', 'w'), indent=1)
